@@ -617,6 +617,13 @@ def run_part(ctx):
     docs = [h for h in pool if len(h) < 400]
     rng.shuffle(docs)
     mc += ["tt.parse\t" + h for h in docs[:ctx.scale(60, 600)]]
+    # >>> s_c01 (wave 6): the ladder lengths 63 .. 1025 for the SWAR / plain scanners (own generator state: the streams that follow keep their inputs)
+    import random
+    from props import C01_sizes
+    own = random.Random(ctx.seed ^ 0x6d697269)
+    mc += C01_sizes.miri_cases(own)
+    own.shuffle(mc)          # miri_run cuts mc into contiguous shards: spread the long cases
+    # <<< s_c01
     if os.environ.get("VERIF_NO_MIRI"):
         out, note = None, "disabled by VERIF_NO_MIRI"
     else:
